@@ -186,7 +186,11 @@ class TermBuilder:
                                     if var is not None:
                                         env["item"] = simplify_proj(ptb.term(c.args[0], 2), (var, ".0"))
                                         env["item_n"] = 2
-                        if c.decl.startswith("std::iter::Iterator::") and len(c.args) >= 2:
+                        # only adaptors that hand *every* element to the closure and keep the results apart: `map_while`,
+                        # `take_while`, `skip_while`, `scan` .. stop or skip depending on earlier elements, so "the closure's item"
+                        # is not "any element of the iterator" there and the parameter stays unbound
+                        if re.fullmatch(r"std::iter::Iterator::(map|filter_map|flat_map|for_each|try_for_each|filter|inspect|fold|try_fold|rfold|try_rfold|any|all|find|find_map|"
+                                        r"position|rposition|max_by_key|min_by_key|max_by|min_by|partition|is_sorted_by_key|sum|product|count|last|reduce)", c.decl) and len(c.args) >= 2:
                             for lf in parent.origins(c.args[-1], passthrough={}):
                                 if lf["kind"] == "agg" and lf["stmt"] is st:
                                     env["item"] = ("call", "std::iter::Iterator::next", (ptb.term(c.args[0], 2),))
